@@ -51,20 +51,24 @@ def readStats (src : Bytes) (start srcSize : Nat) (hufLogMax : Nat := Gen.HUF_TA
   if rank1 < 2 || rank1 % 2 == 1 then throw (.corruptionAt "Huf:51")
   return { weights := ws.push last, tableLog := tableLog, used := iSize + 1 }
 
-/-- HUF_readDTableX1_wksp: weight-w symbols (in symbol order) occupy (1<<w)>>1 consecutive cells, weights ascending -/
-def buildTable (st : Stats) : Table := Id.run do
+/-- the cells of rank `w` in HUF_readDTableX1_wksp: the symbols of weight `w`, in symbol order, each occupy `(1<<w)>>1` consecutive
+cells holding (symbol, nbBits = tableLog + 1 - w) -/
+def rankCells (weights : List Nat) (log w : Nat) : List (Nat × Nat) :=
+  weights.zipIdx.flatMap fun (x, s) =>
+    if x == w then List.replicate ((1 <<< w) >>> 1) (s, log + 1 - w) else []
+
+/-- the cells written by HUF_readDTableX1_wksp, in table order: ranks (weights) 1..tableLog ascending -/
+def tableCells (weights : List Nat) (log : Nat) : List (Nat × Nat) :=
+  (List.range' 1 log).flatMap (rankCells weights log)
+
+/-- HUF_readDTableX1_wksp: weight-w symbols (in symbol order) occupy (1<<w)>>1 consecutive cells, weights ascending.
+The table has exactly `1 << tableLog` cells; for weights accepted by `readStats` (Kraft equality) `tableCells` fills it exactly
+(Lemmas/HufRT.lean `tableCells_length`), otherwise missing cells stay (0, 0) and writes beyond the end are dropped, as in the
+array-filling loop this definition replaces. -/
+def buildTable (st : Stats) : Table :=
   let size := 1 <<< st.tableLog
-  let mut cells : Array (Nat × Nat) := Array.replicate size (0, 0)
-  let mut pos := 0
-  for w in [1:st.tableLog + 1] do
-    let len := (1 <<< w) >>> 1
-    let nb := st.tableLog + 1 - w
-    for s in [0:st.weights.size] do
-      if st.weights[s]! == w then
-        for k in [0:len] do
-          cells := cells.set! (pos + k) (s, nb)
-        pos := pos + len
-  return { log := st.tableLog, cells := cells }
+  let l := tableCells st.weights.toList st.tableLog
+  { log := st.tableLog, cells := ((l ++ List.replicate (size - l.length) (0, 0)).take size).toArray }
 
 /-- HUF_decompress1X: exactly `n` symbols, then the stream must be exactly exhausted -/
 def decode1 (t : Table) (src : Bytes) (start len n : Nat) (out : ByteArray) (fastPathPossible : Bool := false) : R ByteArray := do
